@@ -668,6 +668,24 @@ def kwonly_type_is(g, sa, sb):
     return refused[0] != refused[1]
 
 
+def stack_limit_artefact(sa, sb):
+    """Both variants run into the call-stack limit with the same outcomes, and one transcript is a prefix of the other.  The
+    opacifying rewrites insert native calls (`opaque(...)`), and every native call occupies a call-stack frame: an unbounded
+    recursion therefore hits `Starlark call stack overflow` one level earlier in the opacified variant.  Where the limit strikes
+    is a property of the call depth (C15), not of the optimiser; everything emitted before it must still agree."""
+    oa, ob = outcomes(sa), outcomes(sb)
+    if oa != ob or not oa or oa[-1][0] != "err":
+        return False
+    if not re.search(r"call stack overflow|Too many recursion levels", oa[-1][2] or ""):
+        return False
+    ta, tb = sa[0], sb[0]
+    if not isinstance(ta, tuple) or not isinstance(tb, tuple):
+        return False
+    ta, tb = [x for x in ta if x != "|"], [x for x in tb if x != "|"]
+    n = min(len(ta), len(tb))
+    return ta[:n] == tb[:n]
+
+
 def compare_groups(groups, sigs, stats):
     """-> list of (group index, a, b, sa, sb)."""
     diffs = []
@@ -683,6 +701,9 @@ def compare_groups(groups, sigs, stats):
                 continue
             if ("loaded" in a) != ("loaded" in b) and (frozen_mutation(sa) or frozen_mutation(sb)) and sa != sb:
                 stats["skipped_frozen_mutation"] += 1
+                continue
+            if sa != sb and stack_limit_artefact(sa, sb):
+                stats["skipped_stack_limit_depth"] = stats.get("skipped_stack_limit_depth", 0) + 1
                 continue
             if sa == sb:
                 stats["equal"] += 1
